@@ -26,7 +26,12 @@ def gen(rng, tier, shape=None):
                       "future": rng.random() < 0.3, "has_import_already": rng.random() < 0.15})
     flags = rng.choice([["create"], ["create", "fix"], ["create", "fix", "update"], ["fix"], ["create", "fix", "trim", "update"], ["fix", "trim"], ["create", "trim"]])
     force_orders = False
-    if rng.random() < 0.25:
+    if rng.random() < 0.2:
+        # one file needs both generated names (HasRepr and external): both imports must be added
+        files[-1]["stmts"] = ["hasrepr", "external"]
+        files[-1]["has_import_already"] = False
+        flags = rng.choice([["create", "fix"], ["create", "fix", "update"], ["create", "fix", "trim", "update"]])
+    elif rng.random() < 0.25:
         # two categories that edit the same display, approved together and one at a time
         files[0]["stmts"][0] = rng.choice(["in_trailing", "dict_trailing"])
         flags = rng.choice([["fix", "trim"], ["create", "trim"], ["create", "fix", "trim"], ["create", "fix", "trim", "update"]])
